@@ -38,14 +38,14 @@ RULE = (
     "rename, remove) as crash point, second run on the snapshot; L3: offset-table states and crash points on a 100,001-line file; L4: bundled "
     "document sets: document x archive x format x sizes; L5: external decompressor tools as environment {ok, dies midway, dies inside the "
     "last line, fails immediately} x format x sizes x archive; a failed L1 run is followed by a second run on what it left behind; L6: a whole challenge over three corpora (which ones it uses x "
-    "preparation tasks collected first, as the driver does, or run one at a time x formats) through DefaultTrackPreparator; L7: a declared uncompressed size that the intact archive does not decompress to (+-12 bytes) x format x document x online/offline: explicit error within the I/O-step horizon; L8: --track-path mode, a corpus of three document sets, every placement of each (bundled plain, bundled archive, to be downloaded). "
+    "preparation tasks collected first, as the driver does, or run one at a time x formats) through DefaultTrackPreparator; L7: a declared uncompressed size that the intact archive does not decompress to (+-12 bytes) x format x document x online/offline: explicit error within the I/O-step horizon; L8: --track-path mode, a corpus of three document sets, every placement of each (bundled plain, bundled archive, to be downloaded); L9: base-url s3:// and gs:// through net.download_from_bucket with stand-in SDK modules: scheme x format x sizes x document/archive before x bucket answers {ok, ok in 3 chunks, error before/inside the object, object of another length, missing object, credentials error} + every crash point of a chunked download, each failure followed by a healthy second run. L2 also starts from non-initial states (truncated / too long document, truncated archive, truncated document next to a correct archive). "
     "non-trivial = a fault, a crash or a non-empty initial state; distinct = the configuration"
 )
 ASSUMPTIONS = [
     "crash = process kill: the directory tree as it is at an I/O step boundary (or inside a write); no power-loss reordering; buffered data that "
     "Python has not yet handed to the OS is modelled by making every write of the code under test unbuffered",
     "HTTP endpoint = scripted net._request (status, Content-Length, stream() raising urllib3 ProtocolError / ReadTimeoutError, "
-    "enforce_content_length as in urllib3: a short body is a ProtocolError); S3/GCS back-ends not modelled; io.is_executable answers False "
+    "enforce_content_length as in urllib3: a short body is a ProtocolError); S3/GCS: boto3 and the Google libraries are optional extras that are not installed, L9 puts stand-ins into sys.modules that answer the calls net.py makes (s3transfer semantics: temporary name + rename, nothing left on failure; ChunkedDownload writes chunk by chunk into the stream Rally opened); io.is_executable answers False "
     "(library decompression) except in layer L5 where the external tool is a scripted subprocess.run, so that the result does not depend "
     "on which tools are installed",
     "a document file that pre-exists with the right size but other content is outside the statement (Rally has no checksums)",
@@ -438,7 +438,7 @@ def l1_check(case, res):
         elif outcome == "returned":
             # undeclared sizes: a truncated / too long local document cannot be told from the published one by size; line count decides
             g = good_state(root, ds)
-            if g and not (not declared and doc_state == "long" and g[0] == "document-wrong-content"):
+            if g:
                 v = (f"returned-but-{g[0]}", g[1])
         else:
             if not isinstance(exc, Exception):
@@ -464,7 +464,7 @@ def l1_check(case, res):
             outcome2, exc2 = prepare(root, ds, ep2, offline)
             if outcome2 == "returned":
                 g = good_state(root, ds)
-                if g and not (not declared and doc_state == "long" and g[0] == "document-wrong-content"):
+                if g:
                     v = (f"second-run-returned-but-{g[0]}", f"first run raised {type(exc).__name__}, the second run returned: {g[1]}")
             elif not isinstance(exc2, Exception):
                 v = ("second-run-no-explicit-error", f"{outcome2}")
@@ -492,15 +492,20 @@ def l2_cases(tier):
         for declared in (True, False):
             for first_word in ((), ("proto-mid",)):
                 yield (fmt, declared, first_word)
+            # non-initial states: what an earlier, interrupted run may have left behind (first run on a healthy network)
+            for doc_state, arch_state in (("truncated", "absent"), ("long", "absent")) + ((("absent", "truncated"), ("truncated", "correct")) if fmt else ()):
+                yield (fmt, declared, (), doc_state, arch_state)
 
 
 def l2_check(case, res):
     setup()
-    fmt, declared, first_word = case
+    fmt, declared, first_word = case[:3]
+    doc_state, arch_state = case[3:] if len(case) > 3 else ("absent", "absent")
     archive = compress(fmt, DOC) if fmt else None
     ds = docset(fmt, declared, True, archive=archive)
     # count the I/O steps of an uninterrupted first run
     root = new_root()
+    populate(root, fmt, doc_state, arch_state, archive)
     c0 = StepCounter(root)
     prepare(root, ds, Endpoint(first_word, archive if fmt else DOC), False, c0)
     shutil.rmtree(root, ignore_errors=True)
@@ -515,6 +520,7 @@ def l2_check(case, res):
                 def on_crash():
                     shutil.copytree(root, snap)
 
+                initial = populate(root, fmt, doc_state, arch_state, archive)
                 c = StepCounter(root, crash_at=k, torn=torn, on_crash=on_crash)
                 outcome, _ = prepare(root, ds, Endpoint(first_word, archive if fmt else DOC), False, c)
                 # the kill is modelled by the snapshot taken at the crash point; what the unwinding exception turns into in the live
@@ -522,7 +528,7 @@ def l2_check(case, res):
                 if not os.path.isdir(snap):
                     v = ("crash-not-injected", f"step {k} {c0.log[k]}: {outcome}")
                 else:
-                    v = partial_under_final_name(snap, ds, {}, DOC, archive)
+                    v = partial_under_final_name(snap, ds, initial, DOC, archive)
                     if v is None:
                         # the next run starts on what the killed process left behind
                         outcome2, exc2 = prepare(snap, ds, Endpoint((), archive if fmt else DOC), False)
@@ -536,7 +542,7 @@ def l2_check(case, res):
                 shutil.rmtree(root, ignore_errors=True)
                 shutil.rmtree(snap, ignore_errors=True)
             res.case(
-                case_repr={"format": fmt, "sizes_declared": declared, "first_run_downloads": list(first_word), "crash_at_step": k, "step": list(map(str, c0.log[k])), "torn": torn}
+                case_repr={"format": fmt, "sizes_declared": declared, "first_run_downloads": list(first_word), "document_before": doc_state, "archive_before": arch_state, "crash_at_step": k, "step": list(map(str, c0.log[k])), "torn": torn}
                 if res.sample_now(211)
                 else None,
                 nontrivial_key=("L2", case, k, torn),
@@ -546,8 +552,8 @@ def l2_check(case, res):
                 what = c0.log[k][1] if len(c0.log[k]) > 1 else ""
                 res.violation(
                     f"prepare:{v[0]}:crash-in-{c0.log[k][0]}-of-{'offset-table' if str(what).endswith('.offset') else ('document' if what == 'docs.json' else 'download')}" + ("" if declared else ":sizes-undeclared"),
-                    f"format={fmt} declared={declared} first-run downloads={list(first_word)} crash at step {k} {c0.log[k]} torn={torn}: {v[1]}",
-                    {"layer": 2, "case": [fmt, declared, list(first_word)], "k": k, "torn": torn},
+                    f"format={fmt} declared={declared} first-run downloads={list(first_word)} before: document {doc_state}, archive {arch_state}; crash at step {k} {c0.log[k]} torn={torn}: {v[1]}",
+                    {"layer": 2, "case": [fmt, declared, list(first_word), doc_state, arch_state], "k": k, "torn": torn},
                 )
 
 
@@ -671,7 +677,7 @@ def l4_check(case, res):
             v = ("bundled-set-downloads", f"{len(ep.requests)} download requests for a bundled document set")
         elif exc is None and r is True:
             g = good_state(root, ds)
-            if g and not (not declared and doc_state == "long" and g[0] == "document-wrong-content"):
+            if g:
                 v = (f"bundled-returned-true-but-{g[0]}", g[1])
         elif exc is None and r is False:
             usable = doc_state != "absent" or (fmt and arch_state != "absent")
@@ -989,6 +995,208 @@ def l7_check(case, res):
                       {"layer": 7, "case": list(case)})
 
 
+# ------------------------------------------------------------------------------------------------ L9 bucket back-ends (s3:// and gs://)
+
+BUCKET_OUTCOMES = {"s3": ["ok", "error", "wrong-length", "missing-object"], "gs": ["ok", "ok-3-chunks", "error-first-chunk", "error-mid", "wrong-length", "auth-error"]}
+
+
+class SdkError(Exception):
+    """stands for botocore.exceptions.ClientError / google.resumable_media.common.InvalidResponse / DefaultCredentialsError"""
+
+
+def install_fake_sdks(state):
+    """boto3 and the Google libraries are optional extras that are not installed here: minimal stand-ins with the calls
+    net._download_from_s3_bucket / _download_from_gcs_bucket make. `state` = {"kind": outcome, "published": bytes, "calls": []}.
+    s3transfer writes to a temporary name and renames on success (and removes the temporary file on failure), so a failing
+    S3 download leaves nothing at local_path; ChunkedDownload writes chunk after chunk into the stream Rally opened."""
+    import sys
+    import types
+
+    def mod(name, **attrs):
+        m = types.ModuleType(name)
+        m.__dict__.update(attrs)
+        sys.modules[name] = m
+        return m
+
+    class _Object:
+        def __init__(self, key):
+            self.key = key
+
+        @property
+        def content_length(self):
+            if state["kind"] == "missing-object":
+                raise SdkError("An error occurred (404) when calling the HeadObject operation: Not Found")
+            return len(OTHER if state["kind"] == "wrong-length" else state["published"])
+
+    class _Bucket:
+        def __init__(self, name):
+            self.name = name
+
+        def Object(self, key):
+            return _Object(key)
+
+        def download_file(self, key, local_path, Callback=None, Config=None):
+            state["calls"].append(("s3", self.name, key))
+            if state["kind"] in ("error", "missing-object"):
+                raise SdkError("An error occurred (403) when calling the GetObject operation: Forbidden")
+            body = OTHER if state["kind"] == "wrong-length" else state["published"]
+            tmp = local_path + ".6eF5b5da"
+            with open(tmp, "wb") as f:
+                f.write(body)
+            os.rename(tmp, local_path)
+            if Callback:
+                Callback(len(body))
+
+    class _Resource:
+        def Bucket(self, name):
+            return _Bucket(name)
+
+    transfer = mod("boto3.s3.transfer", TransferConfig=lambda **kw: ("config", kw))
+    s3 = mod("boto3.s3", transfer=transfer)
+    mod("boto3", resource=lambda kind: _Resource(), s3=s3)
+
+    class ChunkedDownload:
+        def __init__(self, media_url, chunk_size, stream):
+            self.media_url, self.stream = media_url, stream
+            self.body = OTHER if state["kind"] == "wrong-length" else state["published"]
+            n = 3 if state["kind"] in ("ok-3-chunks", "error-mid") else 1
+            step = -(-len(self.body) // n)
+            self.chunks = [self.body[i : i + step] for i in range(0, len(self.body), step)]
+            self.i = 0
+            self.bytes_downloaded = 0
+            self.total_bytes = None
+            state["calls"].append(("gs", media_url))
+
+        @property
+        def finished(self):
+            return self.i >= len(self.chunks)
+
+        def consume_next_chunk(self, transport):
+            if state["kind"] == "error-first-chunk" or (state["kind"] == "error-mid" and self.i == 1):
+                raise SdkError("Request failed with status code 503")
+            c = self.chunks[self.i]
+            self.i += 1
+            self.stream.write(c)
+            self.bytes_downloaded += len(c)
+            self.total_bytes = len(self.body)
+
+    def default(scopes=None):
+        if state["kind"] == "auth-error":
+            raise SdkError("Could not automatically determine credentials.")
+        return ("credentials", None)
+
+    g = mod("google")
+    g.__path__ = []
+    auth = mod("google.auth", default=default)
+    auth.__path__ = []
+    tr = mod("google.auth.transport")
+    tr.__path__ = []
+    req = mod("google.auth.transport.requests", AuthorizedSession=lambda cred: ("session", cred))
+    o2 = mod("google.oauth2")
+    o2.__path__ = []
+    cr = mod("google.oauth2.credentials", Credentials=lambda **kw: ("credentials", kw))
+    rm = mod("google.resumable_media")
+    rm.__path__ = []
+    rr = mod("google.resumable_media.requests", ChunkedDownload=ChunkedDownload)
+    g.auth, g.oauth2, g.resumable_media = auth, o2, rm
+    auth.transport, tr.requests, o2.credentials, rm.requests = tr, req, cr, rr
+
+
+def l9_cases(tier):
+    for scheme in ("s3", "gs"):
+        for fmt in (None, "bz2") + (("zip",) if tier == "thorough" else ()):
+            for declared in (True, False):
+                for doc_state in ("absent", "truncated"):
+                    for arch_state in (("absent", "truncated") if fmt else ("absent",)):
+                        for kind in BUCKET_OUTCOMES[scheme]:
+                            yield (scheme, fmt, declared, doc_state, arch_state, kind, None)
+                        if scheme == "gs":
+                            # every crash point (torn in the middle of the write) of a chunked download, then a healthy second run
+                            for k in range(0, 8):
+                                yield (scheme, fmt, declared, doc_state, arch_state, "ok-3-chunks", k)
+
+
+def l9_check(case, res):
+    """the corpus is published in a bucket (base-url s3://... or gs://...): same statement as L1, through net.download_from_bucket"""
+    setup()
+    scheme, fmt, declared, doc_state, arch_state, kind, crash_at = case
+    archive = compress(fmt, DOC) if fmt else None
+    published = archive if fmt else DOC
+    root = new_root()
+    v = None
+    outcome = exc = None
+    state = {"kind": kind, "published": published, "calls": []}
+    install_fake_sdks(state)
+    os.environ.pop("GOOGLE_AUTH_TOKEN", None)
+
+    def no_http(method, url, **kw):
+        raise AssertionError(f"HTTP request for a bucket URL: {url}")
+
+    try:
+        initial = populate(root, fmt, doc_state, arch_state, archive)
+        ds = docset(fmt, declared, True, archive=archive)
+        ds.base_url = f"{scheme}://corpora-bucket/some/prefix"
+        if crash_at is None:
+            outcome, exc = prepare(root, ds, no_http, False)
+        else:
+            c = StepCounter(root, crash_at=crash_at, torn="half", on_crash=lambda: None)
+            outcome, exc = prepare(root, ds, no_http, False, counter=c)
+        want_url = f"corpora-bucket/some/prefix/{ds.document_archive or ds.document_file}"
+        if isinstance(exc, AssertionError):
+            v = ("bucket-url-fetched-over-http", str(exc))
+        elif outcome == "hangs":
+            v = ("no-termination", str(exc))
+        elif outcome == "returned":
+            g = good_state(root, ds)
+            if g:
+                v = (f"returned-but-{g[0]}", g[1])
+        elif outcome == "raised" and not isinstance(exc, Exception):
+            v = ("no-explicit-error", f"{outcome}")
+        if v is None:
+            v = partial_under_final_name(root, ds, initial, DOC, archive, declared)
+        if v is None and state["calls"]:
+            call = state["calls"][0]
+            got = f"{call[1]}/{call[2]}" if call[0] == "s3" else call[1]
+            if call[0] != scheme:
+                v = ("wrong-bucket-back-end", f"{scheme}:// URL served by the {call[0]} back-end")
+            elif scheme == "s3" and got != want_url:
+                v = ("wrong-bucket-object", f"asked for {got}, the corpus is at {want_url}")
+            elif scheme == "gs" and "corpora-bucket" not in got:
+                v = ("wrong-bucket-object", f"asked for {got}")
+        if v is None and outcome == "raised" and kind in ("ok", "ok-3-chunks") and declared and (not fmt or arch_state == "absent" or declared):
+            v = ("healthy-download-fails", f"{type(exc).__name__}: {str(exc)[:200]}")
+        if v is None and outcome == "returned" and kind not in ("ok", "ok-3-chunks") and declared:
+            v = ("returned-although-download-failed", f"bucket answered {kind}")
+        if v is None and outcome in ("raised", "crashed"):
+            # the user runs Rally again, the bucket is healthy this time
+            state["kind"] = "ok"
+            outcome2, exc2 = prepare(root, ds, no_http, False)
+            if outcome2 == "returned":
+                g = good_state(root, ds)
+                if g and crash_at is not None and crash_at < len(c.log):
+                    st = c.log[crash_at]
+                    what = "offset-table" if str(st[1]).endswith(".offset") else ("document" if st[1] == "docs.json" else "download")
+                    v = (f"after-crash-returned-but-{g[0]}:crash-in-{st[0]}-of-{what}", f"first run killed at step {crash_at} {st}, the second run returned: {g[1]}")
+                elif g:
+                    v = (f"second-run-returned-but-{g[0]}", f"first run {outcome} ({type(exc).__name__ if exc else 'killed'}), the second run returned: {g[1]}")
+            elif not isinstance(exc2, Exception):
+                v = ("second-run-no-explicit-error", f"{outcome2}")
+            elif declared:
+                v = ("second-run-fails-on-healthy-bucket", f"{type(exc2).__name__}: {str(exc2)[:200]}")
+    finally:
+        shutil.rmtree(root, ignore_errors=True)
+    res.case(
+        case_repr={"layer": "L9", "scheme": scheme, "format": fmt, "sizes_declared": declared, "document": doc_state, "archive": arch_state, "bucket_answer": kind,
+                   "crash_at_step": crash_at, "result": outcome, "error": type(exc).__name__ if exc else None} if res.sample_now(37) else None,
+        nontrivial_key=("L9", case),
+        outcome_key=("L9", scheme, outcome, type(exc).__name__ if exc else None, v[0] if v else "ok"),
+    )
+    if v:
+        res.violation(f"prepare:{v[0]}" + ("" if ":crash-in-" in v[0] else f":{scheme}:{fmt or 'plain'}") + ("" if declared else ":sizes-undeclared"),
+                      f"{scheme}:// bucket, format={fmt} declared={declared} doc={doc_state} archive={arch_state} answer={kind} crash_at={crash_at}: {v[1]}",
+                      {"layer": 9, "case": list(case)})
+
+
 def _job(arg):
     layer, items = arg
     res = Result()
@@ -1007,6 +1215,8 @@ def _job(arg):
             l7_check(it, res)
         elif layer == 8:
             l8_check(it, res)
+        elif layer == 9:
+            l9_check(it, res)
         else:
             l3_check(it, res)
     return res
@@ -1021,11 +1231,14 @@ def run(tier, seed):
     jobs += [(6, ch) for ch in par.chunks(list(l6_cases()), 8)]
     jobs += [(7, ch) for ch in par.chunks(list(l7_cases()), 8)]
     jobs += [(8, ch) for ch in par.chunks(list(l8_cases()), 8)]
+    l9 = list(l9_cases(tier))
+    jobs += [(9, ch) for ch in par.chunks(l9, 16)]
     res = par.pmap(_job, jobs, seed=seed)
     res.extra["L1_cases"] = len(l1)
     res.extra["L2_histories"] = len(l2)
     res.extra["L3_states"] = len(l3)
     res.extra["L4_bundled_cases"] = len(l4)
+    res.extra["L9_bucket_cases"] = len(l9)
     res.states = res.evaluations
     res.transitions = res.evaluations
     return res
@@ -1038,13 +1251,15 @@ def replay(data):
         l1_check((c[0], c[1], c[2], c[3], c[4], c[5], tuple(c[6])), res)
     elif data["layer"] == 2:
         c = data["case"]
-        l2_check((c[0], c[1], tuple(c[2])), res)
+        l2_check((c[0], c[1], tuple(c[2])) + tuple(c[3:]), res)
     elif data["layer"] == 4:
         l4_check(tuple(data["case"]), res)
     elif data["layer"] == 5:
         l5_check(tuple(data["case"]), res)
     elif data["layer"] == 7:
         l7_check(tuple(data["case"]), res)
+    elif data["layer"] == 9:
+        l9_check(tuple(data["case"]), res)
     elif data["layer"] == 8:
         l8_check((tuple(data["case"][0]), data["case"][1]), res)
     elif data["layer"] == 6:
